@@ -13,6 +13,7 @@ values are opaque content identifiers.
                                                                 for every import and I descriptor
   qL w                    Link{Workspace w}                  -- resolves I p for every path of w
   qZ                      incremental.ZeroQuery
+  qS w / qP p ord         FDS{Workspace w} / FDP{IR file}  (see `qBodyFds`; engine model only)
 
 Paths are numbers; path 0 is google/protobuf/descriptor.proto (always present).
 `env p = some id` : file p currently has content `id`; `table id = (path, imports)` describes a
@@ -28,6 +29,11 @@ open PCV.Incr
 def qk (kind p : Nat) : Key := 8 * p + kind
 def qL (w : Nat) : Key := 8 * w + 4
 def qZ : Key := 5
+/-- FDS{Workspace w} -/
+def qS (w : Nat) : Key := 8 * w + 6
+/-- FDP{File: an IR file object}: `p` the path, `ord` the ordinal of that IR object among the IR
+    objects of `p` that ever got an FDP task (FDP is keyed by IR file identity) -/
+def qP (p ord : Nat) : Key := 8 * (p + 64 * ord) + 7
 
 structure Content where
   path : Nat
@@ -77,5 +83,21 @@ def qBody (selfEdge : Bool) (table : Nat → Content) (wss : Nat → List Nat) (
       | some f => .ret f                        -- results.Slice() returns the first fatal
       | none => .ret (.ok 0))
   | _ => .ret (.ok 0)
+
+/-- `queries.FDS` and `queries.FDP` on top of `qBody`: FDS{w} resolves Link{w} and then, in one
+    `Resolve`, the FDP query of every IR file in the import closure of the workspace (`plan w`,
+    which depends on the identity of the current IR file objects and is therefore supplied by
+    the caller); FDP resolves nothing.  Not part of C35's theorem (FDP keys are object
+    identities, not functions of the inputs); used by the engine model only. -/
+def qBodyFds (plan : Nat → List Key) (base : Key → Script) : Key → Script := fun k =>
+  match k % 8 with
+  | 6 => .resolve [qL (k / 8)] (fun rs =>
+      if isOk (rs.headD (.fatal 2)) then
+        (match plan (k / 8) with
+         | [] => .ret (.ok 0)
+         | ps => .resolve ps (fun _ => .ret (.ok 0)))
+      else .ret (rs.headD (.fatal 2)))
+  | 7 => .ret (.ok 0)
+  | _ => base k
 
 end PCV.IncrQueries
